@@ -447,8 +447,31 @@ def _odd_random(rng, n, big=False):
         yield c
 
 
+def _heard_again(rng, n):
+    """the SAME vector (identical bytes) heard more than once: ignored the first time for claiming more of this node's data
+    than it has produced and acceptable after the publications made in between; accepted the first time and heard again;
+    with and without a timer expiry / another vector in between.  Every reception is judged on the state at its time."""
+    for _ in range(n):
+        seq0 = rng.choice([0, 1, 3])
+        k = rng.choice([1, 1, 2])
+        v = [['/n0', seq0 + k]] + [['/n%d' % j, rng.randint(1, 9)] for j in rng.sample([1, 2, 3], rng.randint(1, 2))]
+        if rng.random() < 0.3:
+            v = v[1:]
+        rng.shuffle(v)
+        between = [['p'] for _ in range(rng.choice([k, k, k, max(0, k - 1), k + 1]))]
+        if rng.random() < 0.4:
+            between.insert(rng.randint(0, len(between)), ['t'])
+        if rng.random() < 0.3:
+            between.append(['r', [['/n%d' % rng.randint(1, 3), rng.randint(1, 9)]]])
+        evs = [['r', v]] + between + [['r', v]]
+        if rng.random() < 0.3:
+            evs += [['t'], ['r', v]]
+        yield {'seq0': seq0, 'events': evs}
+
+
 def cases(rng, tier):
     yield from _targeted()
+    yield from _heard_again(rng, 60 if tier == 'quick' else 3000)
     yield from _resumed()
     yield from _ctor_random(rng, 150 if tier == 'quick' else 4000)
     yield from _odd_targeted()
